@@ -33,7 +33,7 @@ VARIANTS = {
     # UBSan in trap mode: every undefined operation raises SIGILL at the faulting call (no
     # per-location de-duplication); drivers turn it into ub=1 on that event via sigsetjmp.
     "asan": ["-O1", "-g", "-fno-omit-frame-pointer", "-fsanitize=address,undefined",
-             "-fsanitize-trap=undefined", "-fno-sanitize-recover=all"],
+             "-fsanitize-trap=undefined", "-fno-sanitize-recover=all", "-D_GLIBCXX_SANITIZE_VECTOR"],
     "ubsan": ["-O1", "-g", "-fsanitize=undefined", "-fsanitize-trap=undefined"],
     "tsan": ["-O1", "-g", "-fsanitize=thread"],
     "pat": ["-O1", "-ftrivial-auto-var-init=pattern"],
@@ -305,6 +305,9 @@ class Verdict:
                 "infrastructure failures (parts not validated): " + "; ".join(self.infra[:5]))
         write_evidence(self.pid, evidence)
         if self.violations:
+            import collections
+            cnt = collections.Counter(k for k, _, _ in self.violations)
+            log("violation classes: " + ", ".join("%s x%d" % kv for kv in cnt.most_common(60)))
             n = 0
             shown = set()
             for key, desc, obj in self.violations:
